@@ -24,12 +24,12 @@ Proof.
   - rewrite H3. unfold seg; simpl. rewrite Hh. reflexivity.
 Qed.
 
-Lemma link_init_ok chain src draws :
+Lemma link_init_ok chain src draws sd :
   chain_ok chain ->
-  link_ok (link_init chain src draws) /\ static_link (link_init chain src draws) /\
-  stream (link_init chain src draws) = src_bytes src.
+  link_ok (link_init_slow chain src draws sd) /\ static_link (link_init_slow chain src draws sd) /\
+  stream (link_init_slow chain src draws sd) = src_bytes src.
 Proof.
-  intros H. unfold link_init.
+  intros H. unfold link_init_slow.
   assert (H' : chain_ok ((TNoop, true) :: chain)) by (constructor; [simpl; auto|exact H]).
   destruct (mk_stubs_ok _ true 0 H') as (H1 & H2 & H3).
   repeat split; [exact H1|exact H2|].
@@ -82,27 +82,27 @@ Proof.
     + inversion H; subst. exists []. reflexivity.
 Qed.
 
-Lemma c01_safety chain src draws sigma l :
+Lemma c01_safety chain src draws sd sigma l :
   chain_ok chain ->
-  sched_run (link_init chain src draws) sigma = Some l ->
+  sched_run (link_init_slow chain src draws sd) sigma = Some l ->
   sink_bytes l ++ flow (l_stubs l) ++ pending l = src_bytes src.
 Proof.
-  intros Hc Hrun. destruct (link_init_ok chain src draws Hc) as (H1 & H2 & H3).
+  intros Hc Hrun. destruct (link_init_ok chain src draws sd Hc) as (H1 & H2 & H3).
   destruct (sched_run_inv sigma _ _ H1 H2 Hrun) as (_ & _ & Hs).
   unfold stream in Hs. rewrite Hs. exact H3.
 Qed.
 
-Lemma c01_prefix chain src draws sigma l :
+Lemma c01_prefix chain src draws sd sigma l :
   chain_ok chain ->
-  sched_run (link_init chain src draws) sigma = Some l ->
+  sched_run (link_init_slow chain src draws sd) sigma = Some l ->
   is_prefix (sink_bytes l) (src_bytes src).
 Proof.
   intros Hc Hrun. eexists. symmetry. eapply c01_safety; eassumption.
 Qed.
 
-Lemma c01_safety_quiet chain src draws fuel horizon l :
+Lemma c01_safety_quiet chain src draws sd fuel horizon l :
   chain_ok chain ->
-  run_quiet fuel horizon (link_init chain src draws) = Some l ->
+  run_quiet fuel horizon (link_init_slow chain src draws sd) = Some l ->
   sink_bytes l ++ flow (l_stubs l) ++ pending l = src_bytes src.
 Proof.
   intros Hc Hrun. destruct (run_quiet_sched _ _ _ _ Hrun) as [sigma Hs].
@@ -110,12 +110,12 @@ Proof.
 Qed.
 
 (** no stage of a static preserving link ever panics or diverges, on any schedule *)
-Lemma c01_never_dead chain src draws sigma l :
+Lemma c01_never_dead chain src draws sd sigma l :
   chain_ok chain ->
-  sched_run (link_init chain src draws) sigma = Some l ->
+  sched_run (link_init_slow chain src draws sd) sigma = Some l ->
   Forall (fun s => mode_of (s_st s) <> MDead) (l_stubs l).
 Proof.
-  intros Hc Hrun. destruct (link_init_ok chain src draws Hc) as (H1 & H2 & H3).
+  intros Hc Hrun. destruct (link_init_ok chain src draws sd Hc) as (H1 & H2 & H3).
   destruct (sched_run_inv sigma _ _ H1 H2 Hrun) as (Hok & _ & _).
   unfold link_ok in Hok. eapply Forall_impl; [|exact Hok].
   intros s (_ & _ & Hw & _). eapply wf_not_dead; exact Hw.
